@@ -93,6 +93,11 @@ theorem quit_reaches_every_job (script : List (List Rg.Op × List Nat)) :
     Rg.leaked (Rg.run (Rg.init { f19 := true }) script) = [] ∧ Rg.hung (Rg.run (Rg.init { f19 := true }) script) = [] :=
   Rg.no_job_outside_the_registry script
 
+/-- **promptly for an abort, nothing left behind**: the worker holds the task of every job ever started, so dropping its task set
+    (which aborts them all; the children die with their tasks) reaches every one -/
+theorem abort_reaches_every_job (script : List (List Rg.Op × List Nat)) :
+    Rg.abortLeaked (Rg.run (Rg.init { f19 := true }) script) = [] := Rg.abort_reaches_every_job_task script
+
 /-- … which the code before the repair F19 did not do: the same new id asked for twice within one action started two jobs, the
     first of which was never registered -/
 theorem quit_missed_a_job_before_F19 : Rg.leaked (Rg.run (Rg.init { f19 := false }) [([.mint 0, .goc 0, .goc 0], [])]) = [0] :=
